@@ -6,7 +6,8 @@
 // One model with VF_NCOV basic structures in dimension VF_NDIM with VF_NVAR variables; per structure a
 // symbolic flag_range in {-1, 0, +1} and flag_param in {0, 1} (what model_cova_characteristics
 // reports); every option flag symbolic; tapering on or off.
-// Reference (identifier decoded by the harness's own arithmetic, base CONGRUENCY = 50):
+// Reference (each identifier of the list is compared with the codes, computed here in base CONGRUENCY = 50,
+// of every (structure, element type, ivar, jvar) the fitting knows for this model):
 //   flag_goulard_used              => no SILL identifier
 //   !auth_aniso                    => no RANGE identifier with ivar >= 1 and no ANGLE identifier
 //   !auth_rotation                 => no ANGLE identifier
@@ -131,64 +132,71 @@ extern "C" void k_parid_options()
   vf_assert_id((int)sm.parid.size() == VF_NPAR0, "list keeps its allocated size");
 
   // one verdict per clause, accumulated branch-free over the slots of the list (slot n is live iff n < ntot)
-  bool okStruct = true, okType = true, okSillGoulard = true, okSillPair = true, okParam = true, okRangeHas = true, okRangeDir = true,
-       okRangeMain = true, okAniso = true, okIso2d = true, okNo3d = true, okAngleHas = true, okAngleAniso = true, okAngleRot = true,
-       okAngleDir = true, okAngle2d = true, okRot2d = true, okSameRot = true, okTape = true;
+  // and over every identifier the fitting knows for this model: (structure, element type, ivar, jvar)
+  // with its code computed here in base 50 (C17.a) - no decoding arithmetic on symbolic identifiers
+  // (violation counters, not bool &=: clang turns those into bitwise operations on bytes)
+  int badStruct = 0, badSillGoulard = 0, badParam = 0, badRangeHas = 0, badRangeMain = 0, badAniso = 0, badIso2d = 0, badNo3d = 0,
+      badAngleHas = 0, badAngleAniso = 0, badAngleRot = 0, badAngle2d = 0, badRot2d = 0, badSameRot = 0, badTape = 0;
   int angleCov = -1; // structure carrying the rotation parameters seen so far
+  static const int types[5] = {4, 3, 1, 2, 6}; // SILL, PARAM, RANGE, ANGLE, T_RANGE
   for (int n = 0; n < VF_NPAR0; n++)
   {
     bool live = n < ntot;
     int id = sm.parid[n];
-    // own decoding, base 50 (C17.a)
-    int jvar = id % 50, ivar = (id / 50) % 50, icons = (id / 2500) % 50, icov = (id / 125000) % 50, imod = id / 6250000;
-    bool okcov = imod == 0 && icov >= 0 && icov < VF_NCOV;
-    okStruct &= !live || okcov;
-    live = live && okcov;
-    int frange = 0, fparam = 0; // flags of the structure (selected branch-free)
-    for (int c = 0; c < VF_NCOV; c++)
-    {
-      frange = (c == icov) ? g_flag_range[c] : frange;
-      fparam = (c == icov) ? g_flag_param[c] : fparam;
-    }
-    bool isSill = live && icons == 4, isParam = live && icons == 3, isRange = live && icons == 1, isAngle = live && icons == 2, isTape = live && icons == 6;
-    okType &= !live || icons == 4 || icons == 3 || icons == 1 || icons == 2 || icons == 6;
-    okSillGoulard &= !isSill || !goulard;
-    okSillPair &= !isSill || (jvar <= ivar && ivar < VF_NVAR);
-    okParam &= !isParam || fparam != 0;
-    okRangeHas &= !isRange || frange != 0;
-    okRangeDir &= !isRange || (ivar >= 0 && ivar < VF_NDIM);
-    okRangeMain &= !(isRange && ivar == 0) || frange > 0;
-    okAniso &= !(isRange && ivar >= 1) || authAniso;
-    okIso2d &= !(isRange && VF_NDIM == 3 && ivar == 1) || !iso2d;
-    okNo3d &= !(isRange && VF_NDIM == 3 && ivar == 2) || !no3d;
-    okAngleHas &= !isAngle || frange != 0;
-    okAngleAniso &= !isAngle || authAniso;
-    okAngleRot &= !isAngle || authRot;
-    okAngleDir &= !isAngle || (ivar >= 0 && ivar < VF_NDIM);
-    okAngle2d &= !(isAngle && VF_NDIM == 2) || ivar == 0;
-    okRot2d &= !(isAngle && VF_NDIM == 3 && rot2d) || ivar == 0;
-    okSameRot &= !(isAngle && sameRot) || angleCov < 0 || angleCov == icov;
-    angleCov = isAngle ? icov : angleCov;
-    okTape &= !isTape || g_tape;
+    int known = 0;
+    for (int icov = 0; icov < VF_NCOV; icov++)
+      for (int it = 0; it < 5; it++)
+      {
+        int icons = types[it];
+        int nv1 = (icons == 4) ? VF_NVAR : (icons == 1 || icons == 2) ? VF_NDIM : 1;
+        for (int ivar = 0; ivar < nv1; ivar++)
+          for (int jvar = 0; jvar <= ((icons == 4) ? ivar : 0); jvar++)
+          {
+            int code = ((icov * 50 + icons) * 50 + ivar) * 50 + jvar; // imod = 0
+            bool is = live && id == code;
+            known += is ? 1 : 0;
+            int frange = g_flag_range[icov], fparam = g_flag_param[icov];
+            if (icons == 4) badSillGoulard += (is && !(!goulard)) ? 1 : 0;
+            if (icons == 3) badParam += (is && !(fparam != 0)) ? 1 : 0;
+            if (icons == 1)
+            {
+              badRangeHas += (is && !(frange != 0)) ? 1 : 0;
+              if (ivar == 0) badRangeMain += (is && !(frange > 0)) ? 1 : 0;
+              if (ivar >= 1) badAniso += (is && !(authAniso)) ? 1 : 0;
+              if (VF_NDIM == 3 && ivar == 1) badIso2d += (is && !(!iso2d)) ? 1 : 0;
+              if (VF_NDIM == 3 && ivar == 2) badNo3d += (is && !(!no3d)) ? 1 : 0;
+            }
+            if (icons == 2)
+            {
+              badAngleHas += (is && !(frange != 0)) ? 1 : 0;
+              badAngleAniso += (is && !(authAniso)) ? 1 : 0;
+              badAngleRot += (is && !(authRot)) ? 1 : 0;
+              if (VF_NDIM == 2 && ivar != 0) badAngle2d += is ? 1 : 0;
+              if (VF_NDIM == 3 && ivar != 0) badRot2d += (is && !(!rot2d)) ? 1 : 0;
+              badSameRot += (is && sameRot && !(angleCov < 0 || angleCov == icov)) ? 1 : 0;
+              angleCov = is ? icov : angleCov;
+            }
+            if (icons == 6) badTape += (is && !(g_tape)) ? 1 : 0;
+          }
+      }
+    // (every well-formed identifier is in the enumeration above: structure of the model, one of the five
+    // element types, sill pair jvar <= ivar < nvar, range / angle direction < ndim)
+    badStruct += (live && known == 0) ? 1 : 0;
   }
-  vf_assert_id(okStruct, "identifier names a structure of the model");
-  vf_assert_id(okType, "identifier has one of the element types of the fitting (SILL, PARAM, RANGE, ANGLE, T_RANGE)");
-  vf_assert_id(okSillGoulard, "no sill parameter when the sills are left to Goulard");
-  vf_assert_id(okSillPair, "sill parameter names a variable pair");
-  vf_assert_id(okParam, "third parameter only for a structure which has one");
-  vf_assert_id(okRangeHas, "no range parameter for a structure without range");
-  vf_assert_id(okRangeDir, "range parameter names a space direction");
-  vf_assert_id(okRangeMain, "no main range parameter when the range is redundant with the sill");
-  vf_assert_id(okAniso, "auth_aniso = false: no anisotropy (second / third range) parameter");
-  vf_assert_id(okIso2d, "lock_iso2d (3-D): no second horizontal range parameter");
-  vf_assert_id(okNo3d, "lock_no3d (3-D): no vertical range parameter");
-  vf_assert_id(okAngleHas, "no rotation parameter for a structure without range");
-  vf_assert_id(okAngleAniso, "auth_aniso = false: no rotation parameter");
-  vf_assert_id(okAngleRot, "auth_rotation = false: no rotation parameter");
-  vf_assert_id(okAngleDir, "rotation parameter names an angle of the space");
-  vf_assert_id(okAngle2d, "2-D: a single rotation angle");
-  vf_assert_id(okRot2d, "lock_rot2d (3-D): rotation around the vertical axis only");
-  vf_assert_id(okSameRot, "lock_samerot: rotation parameters for one structure only");
-  vf_assert_id(okTape, "tapering range only for a tapered model");
+  vf_assert_id(badStruct == 0, "identifier names a structure of the model, an element type of the fitting (SILL, PARAM, RANGE, ANGLE, T_RANGE), a variable pair / a direction of the space");
+  vf_assert_id(badSillGoulard == 0, "no sill parameter when the sills are left to Goulard");
+  vf_assert_id(badParam == 0, "third parameter only for a structure which has one");
+  vf_assert_id(badRangeHas == 0, "no range parameter for a structure without range");
+  vf_assert_id(badRangeMain == 0, "no main range parameter when the range is redundant with the sill");
+  vf_assert_id(badAniso == 0, "auth_aniso = false: no anisotropy (second / third range) parameter");
+  vf_assert_id(badIso2d == 0, "lock_iso2d (3-D): no second horizontal range parameter");
+  vf_assert_id(badNo3d == 0, "lock_no3d (3-D): no vertical range parameter");
+  vf_assert_id(badAngleHas == 0, "no rotation parameter for a structure without range");
+  vf_assert_id(badAngleAniso == 0, "auth_aniso = false: no rotation parameter");
+  vf_assert_id(badAngleRot == 0, "auth_rotation = false: no rotation parameter");
+  vf_assert_id(badAngle2d == 0, "2-D: a single rotation angle");
+  vf_assert_id(badRot2d == 0, "lock_rot2d (3-D): rotation around the vertical axis only");
+  vf_assert_id(badSameRot == 0, "lock_samerot: rotation parameters for one structure only");
+  vf_assert_id(badTape == 0, "tapering range only for a tapered model");
   vf_witness();
 }
